@@ -280,6 +280,12 @@ fn main() {
             for comp in all_compositions(data.len()) {
                 let r = run(comp.clone());
                 let same = r == reference;
+                // the model's reader (Io/CrLfCheck.v) over the same cutting: the verdict
+                {
+                    let mut pcs = Vec::new(); let mut at = 0usize;
+                    for n in &comp { pcs.push(hx(&data[at..at + n])); at += n; }
+                    cx.out.case("crlf", &[pcs.join(",")], &["utf8-literal-verdict".into(), hx(&data), nums(&comp)], if r.starts_with("OK") { "OK" } else if r == "ERR" { "ERR" } else { &r }, None, "utf8-literal-verdict");
+                }
                 if !same || comp.len() <= 2 || comp.len() == data.len() {
                     cx.out.case("", &[], &["utf8-literal-sched".into(), hx(&data), nums(&comp)], &format!("{} (one read: {})", &r[..r.len().min(40)], &reference[..reference.len().min(40)]), Some(same), "utf8-literal-schedule");
                 }
